@@ -16,7 +16,7 @@ func init() {
 		ID: "C02",
 		Explanation: "Decides structural necessary conditions of C02 (not the model equivalence): (R-C02-1) who-may-write per public operation: the set of persistent locations each db.DB operation can write (through the module call graph, rollback writes excepted) is within the table derived from the documentation; " +
 			"(R-C02-2) missing is never conflated with empty: every read of a version map is the comma-ok form and its value is used only under ok; (R-C02-3) version numbers are never reused: LatestVersion is only ever set to 1 in a literal inserted under a name proven absent, incremented by one, or decremented by one when undoing that increment; new versions are inserted under the just-incremented counter and that number is what a successful put returns; the dedupe short-cut returns the counter only under 'that version exists and its bytes equal the value'; " +
-			"(R-C02-4) the active version exists and cannot be deleted: deletes are edge-dominated by version != ActiveVersion, activation by presence of that version; (R-C02-5) input guards: empty names, the reserved prefix and version 0 never reach a mutation; (R-C02-6) stored values are immutable strings copied in and out by conversion; (R-C02-7) every access to the secrets map uses the operation's own name; (R-C02-9) after the state-changing call of a mutating operation has succeeded no error return is reachable (a call that reports failure changed nothing).",
+			"(R-C02-4) the active version exists and cannot be deleted: deletes are edge-dominated by version != ActiveVersion, activation by presence of that version; (R-C02-5) input guards: empty names, the reserved prefix and version 0 never reach a mutation; (R-C02-6) stored values are immutable strings copied in and out by conversion; (R-C02-7) every access to the secrets map uses the operation's own name; (R-C02-9) after the state-changing call of a mutating operation has succeeded no error return is reachable (a call that reports failure changed nothing). (R-C02-10) when the save fails every in-memory change of the call is undone (C04's R-C04-3).",
 		NotDecided:  "Equivalence with the map model over arbitrary histories (values); wrong-but-well-formed logic that keeps all these shapes.",
 		Trusted:     commonTrusted,
 		Assumptions: []string{"calls outside the module do not mutate package db's private state"},
@@ -199,6 +199,9 @@ func runC02(c *eng.Ctx, tier string) {
 	// R-C02-8: failed calls (unknown name / version) are reported as not-found, not as success
 	notFoundDiscipline(c, "R-C02-8")
 	c02NoFailureAfterCommit(c, d)
+	// R-C02-10: "failed calls change nothing", the other half: when the save
+	// fails every in-memory change of the call is undone (C04's rollback rule)
+	includeOnly(c, "R-C02-10", func(sc *eng.Ctx) { runC04(sc, "quick") }, "R-C04-3")
 }
 
 // c02NoFailureAfterCommit: R-C02-9.  "Failed calls change nothing", seen from
@@ -504,6 +507,8 @@ func c02Guards(c *eng.Ctx, d *dbInfo, k *kvAnalysis) {
 		if _, isMut := tC02[m.Name]; !isMut || m.NameP == nil {
 			continue
 		}
+		// (a guard helper shared by the operations is judged at its call in this one)
+		eng.SetRoot(m.Fn)
 		for _, s := range d.sites(m.Fn) {
 			if !s.Write {
 				continue
@@ -528,7 +533,7 @@ func c02Guards(c *eng.Ctx, d *dbInfo, k *kvAnalysis) {
 					continue
 				}
 				isPrefixTest := (eng.CalleeIs(&call.Call, "strings", "HasPrefix") && idx == -1) || (eng.CalleeIs(&call.Call, "strings", "CutPrefix") && idx == 1)
-				if !isPrefixTest || eng.Origin(call.Call.Args[0]) != ssa.Value(m.NameP) {
+				if !isPrefixTest || !(eng.Origin(call.Call.Args[0]) == ssa.Value(m.NameP) || eng.OriginX(call.Call.Args[0]) == eng.OriginX(m.NameP)) {
 					continue
 				}
 				if pfx, isC := eng.ConstString(call.Call.Args[1]); isC && pfx == "_internal/" {
@@ -538,6 +543,7 @@ func c02Guards(c *eng.Ctx, d *dbInfo, k *kvAnalysis) {
 			c.Check(ok, "R-C02-5", s.Fn, s.In.Pos(), site+" [reserved prefix]", "edge-dominated by the negative edge of a \"_internal/\" prefix test on the same name (reserved names never reach the store)", "holding here: "+factsStr(facts))
 		}
 	}
+	eng.SetRoot(nil)
 	c.Floor("R-C02-5", 6)
 	// version != 0 before activation / version deletion
 	for _, w := range k.writes {
